@@ -285,6 +285,27 @@ static bool build_recipe(recipe_t *r, const char *spec)
 		}
 		return true;
 	}
+	if (!strcmp(t[0], "badxz") && n == 2) {
+		// badxz/<chain>: Stream Header + a Block Header whose filter chain decodes fine (options get allocated) but is not
+		// usable (e.g. Delta as the last filter): lzma_raw_decoder_memusage() == UINT64_MAX -> LZMA_OPTIONS_ERROR at Block init
+		chain_t c;
+		if (!parse_chain(t[1], &c)) return false;
+		lzma_stream_flags sf;
+		memset(&sf, 0, sizeof sf);
+		sf.version = 0; sf.check = LZMA_CHECK_CRC32;
+		uint8_t hdr[LZMA_STREAM_HEADER_SIZE], bh[LZMA_BLOCK_HEADER_SIZE_MAX];
+		if (lzma_stream_header_encode(&sf, hdr) != LZMA_OK) return false;
+		lzma_block b;
+		memset(&b, 0, sizeof b);
+		b.version = 0; b.check = LZMA_CHECK_CRC32; b.filters = c.f;
+		b.compressed_size = LZMA_VLI_UNKNOWN; b.uncompressed_size = LZMA_VLI_UNKNOWN;
+		if (lzma_block_header_size(&b) != LZMA_OK || lzma_block_header_encode(&b, bh) != LZMA_OK) return false;
+		buf_put(&r->data, hdr, sizeof hdr);
+		buf_put(&r->data, bh, b.header_size);
+		const uint8_t pad[64] = { 0 };
+		buf_put(&r->data, pad, sizeof pad);
+		return true;
+	}
 	if (!strcmp(t[0], "lzma") && n == 3) {
 		// lzma/<lzma1 filter>/<len>
 		chain_t c;
@@ -443,6 +464,8 @@ enum { K_NONE, K_SENC, K_AENC, K_RENC, K_BENC, K_MLENC, K_IENC,
 static lzma_stream strm = LZMA_STREAM_INIT;
 static int kind = K_NONE;
 static bool usable;               // last init succeeded and no fatal error since
+static buf_t dec_out;              // decoder output since the last fresh start (decoding is resumable)
+static bool paused, seek_pending; // the last decode step stopped at a recoverable code / at LZMA_SEEK_NEEDED
 static bool finished;             // the encoder on the handle has returned LZMA_STREAM_END for LZMA_FINISH
 static buf_t encout, plain;       // encoder output / input since the last encoder init
 static chain_t cur_chain;         // chain of the current encoder (raw/block verification)
@@ -524,6 +547,7 @@ static bool step_failed_alloc(void) { return TA.failed != fails_at_step_start; }
 static int after_init(lzma_ret r, int k)
 {
 	finished = false;
+	paused = false; seek_pending = false;
 	if (r == LZMA_OK) {
 		usable = true;
 		kind = k;
@@ -618,32 +642,61 @@ static int do_encode(lzma_action a, size_t len)
 	return (int)r;
 }
 
-static int do_decode(void)
+// Decoding is resumable: a RECOVERABLE code (LZMA_MEMLIMIT_ERROR; with stop_at_notice also LZMA_NO_CHECK /
+// LZMA_UNSUPPORTED_CHECK / LZMA_GET_CHECK and LZMA_SEEK_NEEDED) pauses the decode; `dcont` resumes it (after a
+// lzma_memlimit_set, say), `end` or a new init abandons it. Every such path must balance the allocator.
+
+static size_t fi_pos;     // file position of the next byte to hand to the file-info decoder
+
+static void fi_feed(const recipe_t *rc)
+{
+	size_t k = rc->data.n - fi_pos;
+	if (k > 512) k = 512;
+	strm.next_in = rc->data.p + fi_pos;
+	strm.avail_in = k;
+	fi_pos += k;
+}
+
+static int do_decode(bool fresh, bool stop_at_notice)
 {
 	recipe_t *rc = cur_recipe;
 	if (rc == NULL) return RET_BADOP;
-	const uint8_t *in = rc->data.p;
-	size_t n = rc->data.n;
-	if (kind == K_BDEC) { in += rc->hdr; n -= rc->hdr; }
-	buf_t out = { 0 };
 	uint8_t tmp[8192];
 	lzma_ret r;
 	int stall = 0;
-	strm.next_in = in; strm.avail_in = n;
+	if (fresh) {
+		const uint8_t *in = rc->data.p;
+		size_t n = rc->data.n;
+		if (kind == K_BDEC) { in += rc->hdr; n -= rc->hdr; }
+		strm.next_in = in; strm.avail_in = n;
+		// the file-info decoder reads like an application reads a file: 512-byte pieces from the current file position,
+		// so that bigger files really make it ask for seeks
+		if (kind == K_FIDEC) { fi_pos = 0; fi_feed(rc); }
+		buf_clear(&dec_out);
+	} else if (seek_pending) {
+		fi_pos = (size_t)strm.seek_pos;
+		fi_feed(rc);
+	}
+	paused = false; seek_pending = false;
 	for (;;) {
 		strm.next_out = tmp; strm.avail_out = sizeof tmp;
 		size_t in_before = strm.avail_in;
 		r = lzma_code(&strm, kind == K_FIDEC ? LZMA_RUN : LZMA_FINISH);
-		buf_put(&out, tmp, sizeof tmp - strm.avail_out);
+		buf_put(&dec_out, tmp, sizeof tmp - strm.avail_out);
 		if (r == LZMA_SEEK_NEEDED && kind == K_FIDEC) {
 			if (strm.seek_pos > rc->data.n) { r = LZMA_PROG_ERROR; break; }
-			strm.next_in = rc->data.p + strm.seek_pos;
-			strm.avail_in = rc->data.n - (size_t)strm.seek_pos;
+			if (stop_at_notice) { paused = true; seek_pending = true; usable = false; return (int)r; }
+			fi_pos = (size_t)strm.seek_pos;
+			fi_feed(rc);
 			continue;
 		}
-		if (r == LZMA_NO_CHECK || r == LZMA_UNSUPPORTED_CHECK || r == LZMA_GET_CHECK)
+		if (r == LZMA_NO_CHECK || r == LZMA_UNSUPPORTED_CHECK || r == LZMA_GET_CHECK) {
+			if (stop_at_notice) { paused = true; usable = false; return (int)r; }
 			continue;
+		}
+		if (r == LZMA_MEMLIMIT_ERROR) { paused = true; usable = false; return (int)r; }
 		if (r != LZMA_OK) break;
+		if (kind == K_FIDEC && strm.avail_in == 0 && fi_pos < rc->data.n) { fi_feed(rc); continue; }
 		if (strm.avail_in == in_before && strm.avail_out == sizeof tmp && ++stall > 4) break;
 	}
 	if (r == LZMA_STREAM_END) {
@@ -653,13 +706,12 @@ static int do_decode(void)
 		} else if (kind == K_FIDEC) {
 			if (cur_slot < 0 || ix[cur_slot] == NULL || lzma_index_file_size(ix[cur_slot]) != rc->data.n)
 				add_err("file-info-result");
-		} else if (out.n != rc->plain.n || (out.n && memcmp(out.p, rc->plain.p, out.n) != 0)) {
+		} else if (dec_out.n != rc->plain.n || (dec_out.n && memcmp(dec_out.p, rc->plain.p, dec_out.n) != 0)) {
 			add_err("decode-mismatch");
 		}
 	} else if ((kind == K_IDEC || kind == K_FIDEC) && cur_slot >= 0 && ix[cur_slot] != NULL) {
 		add_err("index-pointer-set-on-error");
 	}
-	free(out.p);
 	usable = false;
 	return (int)r;
 }
@@ -763,6 +815,27 @@ static int do_step(char *tok)
 		if (op[1] == 'z') return after_init(lzma_lzip_decoder(&strm, UINT64_MAX, flags), K_LZIPDEC);
 		return after_init(lzma_alone_decoder(&strm, UINT64_MAX), K_ALONEDEC);
 	}
+	if ((!strcmp(op, "sdecml") || !strcmp(op, "adecml")) && n == 4) {
+		// <op>:<flags>:<memlimit>:<recipe>
+		uint32_t flags = (uint32_t)strtoul(a[1], NULL, 10);
+		uint64_t ml = strtoull(a[2], NULL, 10);
+		cur_recipe = get_recipe(a[3]);
+		if (!cur_recipe) return RET_BADOP;
+		if (op[0] == 's') return after_init(lzma_stream_decoder(&strm, ml, flags), K_SDEC);
+		return after_init(lzma_auto_decoder(&strm, ml, flags), K_ADEC);
+	}
+	if (!strcmp(op, "sdecmtml") && n == 5) {
+		mt_seen = true;
+		cur_recipe = get_recipe(a[4]);
+		if (!cur_recipe) return RET_BADOP;
+		lzma_mt mt;
+		memset(&mt, 0, sizeof mt);
+		mt.flags = (uint32_t)strtoul(a[1], NULL, 10);
+		mt.threads = (uint32_t)strtoul(a[2], NULL, 10);
+		mt.memlimit_threading = strtoull(a[3], NULL, 10);
+		mt.memlimit_stop = mt.memlimit_threading;
+		return after_init(lzma_stream_decoder_mt(&strm, &mt), K_SDEC);
+	}
 	if (!strcmp(op, "sdecmt") && n == 4) {
 		mt_seen = true;
 		cur_recipe = get_recipe(a[3]);
@@ -824,7 +897,16 @@ static int do_step(char *tok)
 	}
 	if (!strcmp(op, "dcode") && n == 1) {
 		if (!usable || kind < K_SDEC) return RET_SKIP;
-		return do_decode();
+		return do_decode(true, false);
+	}
+	if (!strcmp(op, "dstop") && n == 1) {
+		// like dcode, but also the notifications and LZMA_SEEK_NEEDED pause the decode
+		if (!usable || kind < K_SDEC) return RET_SKIP;
+		return do_decode(true, true);
+	}
+	if (!strcmp(op, "dcont") && n == 1) {
+		if (!paused || kind < K_SDEC) return RET_SKIP;
+		return do_decode(false, false);
 	}
 	if (!strcmp(op, "dpart") && n == 2) {
 		// feed only the first <n> bytes of the recipe with LZMA_RUN and then ABANDON the decode (input "simply stops",
@@ -879,6 +961,7 @@ static int do_step(char *tok)
 		lzma_end(&strm);
 		usable = false;
 		finished = false;
+		paused = false; seek_pending = false;
 		kind = K_NONE;
 		if (strm.internal != NULL) add_err("lzma_end-left-internal");
 		if (caller_objects() == 0 && TA.nlive != 0) add_err("leak-after-lzma_end");
@@ -1255,7 +1338,7 @@ int main(void)
 		alarm(90);
 		ta_reset();
 		errbuf[0] = 0; rets[0] = 0; stepno = 0; mt_seen = false;
-		usable = false; finished = false; kind = K_NONE; cur_recipe = NULL; cur_slot = -1;
+		usable = false; finished = false; paused = false; seek_pending = false; kind = K_NONE; cur_recipe = NULL; cur_slot = -1;
 		if (!set_failspec(tok[0])) { printf("bad-op\n"); fflush(stdout); continue; }
 		bool bad = false;
 		for (int i = 1; i < nt; ++i) {
